@@ -592,4 +592,243 @@ theorem auth_write_auth_card (C : Cipher) (hC : BlockCipher C) (forget : Bool) (
   rw [afterAuth_mem _ rc2 n h2.liteS (by omega) (by omega)]
   exact hmem
 
+/-! ## `protect(pw)` then `authenticate(pw)` against the card -/
+
+/-- the card after a plain write of block `n` was accepted -/
+def afterPlain (c : Card) (n : Nat) (data : Bytes) : Card := (c.set n data).bump
+
+theorem afterPlain_mem (c : Card) (n k : Nat) (data : Bytes) (hl : c.liteS = true) (hk : k ≠ n) (h90 : k ≠ 0x90) :
+    (afterPlain c n data).mem k = c.mem k := by
+  have h1 : (c.set n data).liteS = true := hl
+  unfold afterPlain
+  rw [bump_eq _ h1, set_mem_other _ _ _ _ h90, set_mem_other _ _ _ _ hk]
+
+theorem afterPlain_mem_same (c : Card) (n : Nat) (data : Bytes) (hl : c.liteS = true) (h90 : n ≠ 0x90) :
+    (afterPlain c n data).mem n = some data := by
+  have h1 : (c.set n data).liteS = true := hl
+  unfold afterPlain
+  rw [bump_eq _ h1, set_mem_other _ _ _ _ h90, set_mem_same]
+
+theorem afterPlain_wb (c : Card) (n : Nat) (data wb : Bytes) (hl : c.liteS = true) (h90 : n ≠ 0x90)
+    (hwb : c.mem 0x90 = some wb) (hwl : wb.length = 16) (hwB : IsBytes wb) :
+    ∃ b, (afterPlain c n data).mem 0x90 = some b ∧ b.length = 16 ∧ IsBytes b := by
+  have h1 : (c.set n data).liteS = true := hl
+  have hwb' : (c.set n data).mem 0x90 = some wb := by rw [set_mem_other _ _ _ _ (Ne.symm h90)]; exact hwb
+  obtain ⟨bl, bB⟩ := bumped_wf _ wb hwb' hwl hwB
+  unfold afterPlain
+  rw [bump_eq _ h1]
+  exact ⟨_, set_mem_same _ _ _, bl, bB⟩
+
+theorem afterPlain_fields (c : Card) (n : Nat) (data : Bytes) (hl : c.liteS = true) :
+    (afterPlain c n data).liteS = true ∧ (afterPlain c n data).idm = c.idm := by
+  have h1 : (c.set n data).liteS = true := hl
+  unfold afterPlain
+  rw [bump_eq _ h1]
+  exact ⟨hl, rfl⟩
+
+/-- a system block other than MAC, CK, MAC_A, STATE read on its own -/
+theorem read_single (C : Cipher) (c : Card) (n : Nat) (b : Bytes) (hm : c.mem n = some b) (hl : b.length = 16)
+    (hn : 15 ≤ n) (h81 : n ≠ 0x81) (h87 : n ≠ 0x87) (h91 : n ≠ 0x91) (h92 : n ≠ 0x92) :
+    c.read C [0x0B, 0] [n] [] = rspFrame c.idm 6 ([1] ++ b) := by
+  have hp : c.present n = true := by simp [Card.present, hm]
+  have hlt : ¬ n < 15 := by omega
+  simp [Card.read, Card.readLoop, Card.readable, hp, Card.readBlock, blk_of_mem hm, rspFrame, hl, h81, h87, h91, h92, hlt]
+
+theorem readPlain_card (C : Cipher) (c : Card) (idm : Bytes) (n : Nat) (b : Bytes) (rd : Reader) (tr : List (Bytes × Option Bytes))
+    (hidm : c.idm = idm) (hil : idm.length = 8) (hm : c.mem n = some b) (hl : b.length = 16)
+    (hn : 15 ≤ n) (h81 : n ≠ 0x81) (h87 : n ≠ 0x87) (h91 : n ≠ 0x91) (h92 : n ≠ 0x92) :
+    ∃ tr', readPlain (honest C) idm [n] ⟨rd, c, tr⟩ = (.ok b, ⟨rd, c, tr'⟩) := by
+  obtain ⟨c0, hc0⟩ := readCmd_ok idm [n] hil (by simp)
+  have ha : honest C c c0 = (some (rspFrame idm 6 ([1] ++ b)), c) := by
+    show c.command C c0 = _
+    rw [command_read C c [n] c0 (by rw [hidm]; exact hil) (by rw [hidm]; exact hc0),
+      read_single C c n b hm hl hn h81 h87 h91 h92, hidm]
+  unfold readPlain
+  rw [bind_of_ok (lift_ok.mpr ⟨hc0, rfl⟩), bind_of_ok (sendRecv_answered _ _ _ _ _ ha)]
+  exact ⟨_, by rw [lift_apply, readRsp_frame idm b [n] 1 hil (by simp [hl])]⟩
+
+/-- a plain write of a system block while the system blocks are not locked -/
+theorem writePlain_card (C : Cipher) (c : Card) (idm : Bytes) (n : Nat) (data : Bytes) (rd : Reader) (tr : List (Bytes × Option Bytes))
+    (hidm : c.idm = idm) (hil : idm.length = 8) (hp : c.present n = true) (hn : 0x82 ≤ n) (hn8 : n ≤ 0x88)
+    (hul : c.systemLocked = false) (hd : data.length = 16) :
+    ∃ tr', writePlain (honest C) idm data n ⟨rd, c, tr⟩ = (.ok (), ⟨rd, afterPlain c n data, tr'⟩) := by
+  obtain ⟨cc, hcc⟩ : ∃ cc, writeCmd idm [n] data = .ok cc := ⟨_, writeCmd_ok idm [n] data hil (by simp [hd])⟩
+  have h90 : ¬ n = 0x90 := by omega
+  have h92 : ¬ n = 0x92 := by omega
+  have h80 : ¬ n = 0x80 := by omega
+  have h15 : ¬ n < 15 := by omega
+  have ha : honest C c cc = (some (writeOk idm), afterPlain c n data) := by
+    show c.command C cc = _
+    rw [command_write C c [n] data cc (by rw [hidm]; exact hil) (by rw [hidm]; exact hcc), write_one C c n data hd]
+    simp [Card.writePlain, hp, h90, h92, h80, h15, hul, afterPlain, Card.okRsp, writeOk, hidm]
+  unfold writePlain writeBlocks
+  rw [if_neg (by simp [hd])]
+  rw [bind_of_ok (lift_ok.mpr ⟨hcc, rfl⟩), bind_of_ok (sendRecv_answered _ _ _ _ _ ha)]
+  exact ⟨_, by rw [lift_apply, writeRsp_ok idm hil]⟩
+
+theorem holds_afterPlain (c : Card) (idm key data : Bytes) (n : Nat) (h : Holds c idm key)
+    (h87 : n ≠ 0x87) (h82 : n ≠ 0x82) (h90 : n ≠ 0x90) (h80 : n ≠ 0x80) (h92 : n ≠ 0x92) :
+    Holds (afterPlain c n data) idm key := by
+  obtain ⟨wb, hwb, hwl, hwB⟩ := h.wb
+  obtain ⟨hl, hi⟩ := afterPlain_fields c n data h.liteS
+  refine ⟨hl, hi.trans h.idm_eq, h.idm_len, h.key_len, ?_, ?_, afterPlain_wb c n data wb h.liteS h90 hwb hwl hwB, ?_, ?_⟩
+  · rw [afterPlain_mem c n _ data h.liteS (Ne.symm h87) (by decide)]; exact h.ck
+  · obtain ⟨b, hb, hbl, hbB⟩ := h.idb
+    exact ⟨b, by rw [afterPlain_mem c n _ data h.liteS (Ne.symm h82) (by decide)]; exact hb, hbl, hbB⟩
+  · rw [afterPlain_mem c n _ data h.liteS (Ne.symm h80) (by decide)]; exact h.rcp
+  · rw [afterPlain_mem c n _ data h.liteS (Ne.symm h92) (by decide)]; exact h.stp
+
+/-- a Lite-S card whose system blocks are not locked yet (as it leaves the factory, or with any
+key whatever), with the blocks `protect` and `authenticate` touch -/
+structure Unlocked (c : Card) (idm : Bytes) : Prop where
+  liteS : c.liteS = true
+  idm_eq : c.idm = idm
+  idm_len : idm.length = 8
+  mc : ∃ m0 m1 m3 m4 m5 rest, c.mem 0x88 = some ([m0, m1, 0xFF, m3, m4, m5] ++ rest) ∧ rest.length = 10
+  ckv : ∃ v0 v1 rest, c.mem 0x86 = some ([v0, v1] ++ rest) ∧ rest.length = 14
+  ckp : (c.mem 0x87).isSome = true
+  idb : ∃ b, c.mem 0x82 = some b ∧ b.length = 16 ∧ IsBytes b
+  wb : ∃ b, c.mem 0x90 = some b ∧ b.length = 16 ∧ IsBytes b
+  rcp : (c.mem 0x80).isSome = true
+  stp : (c.mem 0x92).isSome = true
+
+theorem keyOf_length (p : Bytes) (h : p = [] ∨ 16 ≤ p.length) : (keyOf p).length = 16 := by
+  unfold keyOf
+  split
+  · simp [zeros]
+  · rcases h with h | h
+    · contradiction
+    · simp; omega
+
+theorem liteKey_keyOf (p : Bytes) (h : p = [] ∨ 16 ≤ p.length) : liteKey p = .ok (keyOf p) := by
+  unfold liteKey keyOf
+  have : ¬ (p ≠ [] ∧ p.length < 16) := by
+    rcases h with h | h
+    · simp [h]
+    · intro hc; omega
+  rw [if_neg this]
+
+theorem liteKey_of_key (k : Bytes) (h : k.length = 16) : liteKey k = .ok k := by
+  unfold liteKey
+  have h1 : ¬ (k ≠ [] ∧ k.length < 16) := by intro hc; omega
+  have h2 : k ≠ [] := by intro hc; rw [hc] at h; cases h
+  rw [if_neg h1, if_neg h2, List.take_of_length_le (by omega)]
+
+theorem setSlice_length (b v : Bytes) (i : Nat) (h : i + v.length ≤ b.length) : (setSlice b i v).length = b.length := by
+  simp [setSlice]; omega
+
+theorem set_length' (b : Bytes) (i v : Nat) : (b.set i v).length = b.length := by simp
+
+theorem systemLocked_false (c : Card) (m0 m1 m3 : Nat) (rest : Bytes) (h : c.mem 0x88 = some ([m0, m1, 0xFF, m3] ++ rest)) :
+    c.systemLocked = false := by
+  simp [Card.systemLocked, blk_of_mem h]
+
+/-- `FelicaLiteS.protect(pw)` then `authenticate(pw)` on one tag object against the stateful card,
+through all their commands: on a card whose system blocks are not locked yet - whatever key it
+holds, whatever its write counter is - `protect` (reads MC and CKV, writes CKV and the key,
+authenticates mutually with the new key, writes MC) returns True and the `authenticate` that
+follows, with its own challenge, returns True. -/
+theorem protect_then_auth_card (C : Cipher) (hC : BlockCipher C) (forget : Bool) (c : Card) (idm p rc0 rc1 : Bytes)
+    (rp : Bool) (pf : Nat) (rd : Reader) (tr : List (Bytes × Option Bytes)) (h : Unlocked c idm)
+    (hp : p = [] ∨ 16 ≤ p.length)
+    (hrc0 : rc0.length = 16) (hrc0B : IsBytes rc0) (hrc1 : rc1.length = 16) (hrc1B : IsBytes rc1) :
+    (run C forget (honest C) idm true [.protect (some p) rp pf rc0, .auth p rc1] ⟨rd, c, tr⟩).1
+      = [.ok (.bool true), .ok (.bool true)] := by
+  obtain ⟨m0, m1, m3, m4, m5, mrest, hmc, hmrl⟩ := h.mc
+  obtain ⟨v0, v1, vrest, hckv, hvrl⟩ := h.ckv
+  obtain ⟨wb, hwb, hwl, hwB⟩ := h.wb
+  obtain ⟨idb, hidb, hidl, hidB⟩ := h.idb
+  have hkl := keyOf_length p hp
+  have hul : c.systemLocked = false := systemLocked_false c m0 m1 m3 ([m4, m5] ++ mrest) (by simpa using hmc)
+  -- 1. read MC, read CKV
+  obtain ⟨tr1, hr1⟩ := readPlain_card C c idm 0x88 _ rd tr h.idm_eq h.idm_len hmc (by simp [hmrl]) (by decide) (by decide)
+    (by decide) (by decide) (by decide)
+  obtain ⟨tr2, hr2⟩ := readPlain_card C c idm 0x86 _ rd tr1 h.idm_eq h.idm_len hckv (by simp [hvrl]) (by decide) (by decide)
+    (by decide) (by decide) (by decide)
+  -- 2. write CKV
+  have hp86 : c.present 0x86 = true := by simp [Card.present, hckv]
+  obtain ⟨tr3, hw3⟩ := writePlain_card C c idm 0x86 (le16 (min (v0 + 256 * v1 + 1) 0xFFFF) ++ zeros 14) rd tr2 h.idm_eq h.idm_len hp86
+    (by decide) (by decide) hul (by simp [le16, zeros])
+  generalize hd86 : le16 (min (v0 + 256 * v1 + 1) 0xFFFF) ++ zeros 14 = d86 at hw3
+  -- 3. write the key
+  obtain ⟨hl1, hi1⟩ := afterPlain_fields c 0x86 d86 h.liteS
+  have hp87 : (afterPlain c 0x86 d86).present 0x87 = true := by
+    simp only [Card.present, afterPlain_mem c 0x86 0x87 d86 h.liteS (by decide) (by decide)]; exact h.ckp
+  have hmc1 : (afterPlain c 0x86 d86).mem 0x88 = some ([m0, m1, 0xFF, m3, m4, m5] ++ mrest) := by
+    rw [afterPlain_mem c 0x86 0x88 d86 h.liteS (by decide) (by decide)]; exact hmc
+  have hul1 : (afterPlain c 0x86 d86).systemLocked = false :=
+    systemLocked_false _ m0 m1 m3 ([m4, m5] ++ mrest) (by simpa using hmc1)
+  obtain ⟨tr4, hw4⟩ := writePlain_card C (afterPlain c 0x86 d86) idm 0x87 (revHalves (keyOf p)) rd tr3 (hi1.trans h.idm_eq) h.idm_len hp87
+    (by decide) (by decide) hul1 (revHalves_length _ hkl)
+  -- the card now holds the new key
+  obtain ⟨wb1, hwb1, hwl1, hwB1⟩ := afterPlain_wb c 0x86 d86 wb h.liteS (by decide) hwb hwl hwB
+  obtain ⟨hl2, hi2⟩ := afterPlain_fields (afterPlain c 0x86 d86) 0x87 (revHalves (keyOf p)) hl1
+  have hH : Holds (afterPlain (afterPlain c 0x86 d86) 0x87 (revHalves (keyOf p))) idm (keyOf p) := by
+    refine ⟨hl2, hi2.trans (hi1.trans h.idm_eq), h.idm_len, hkl, afterPlain_mem_same _ _ _ hl1 (by decide), ?_,
+      afterPlain_wb _ 0x87 _ wb1 hl1 (by decide) hwb1 hwl1 hwB1, ?_, ?_⟩
+    · refine ⟨idb, ?_, hidl, hidB⟩
+      rw [afterPlain_mem _ 0x87 0x82 _ hl1 (by decide) (by decide), afterPlain_mem c 0x86 0x82 d86 h.liteS (by decide) (by decide)]
+      exact hidb
+    · rw [afterPlain_mem _ 0x87 0x80 _ hl1 (by decide) (by decide), afterPlain_mem c 0x86 0x80 d86 h.liteS (by decide) (by decide)]
+      exact h.rcp
+    · rw [afterPlain_mem _ 0x87 0x92 _ hl1 (by decide) (by decide), afterPlain_mem c 0x86 0x92 d86 h.liteS (by decide) (by decide)]
+      exact h.stp
+  generalize hc2 : afterPlain (afterPlain c 0x86 d86) 0x87 (revHalves (keyOf p)) = c2 at hw4 hH
+  have hmc2 : c2.mem 0x88 = some ([m0, m1, 0xFF, m3, m4, m5] ++ mrest) := by
+    rw [← hc2, afterPlain_mem _ 0x87 0x88 _ hl1 (by decide) (by decide)]; exact hmc1
+  -- 4. mutual authentication with the new key
+  obtain ⟨⟨sk, tr5, _, ha5⟩, hH3, _⟩ := authLiteS_card C hC forget c2 idm (keyOf p) (keyOf p) rc0 rd tr4 hH (liteKey_of_key _ hkl) hrc0 hrc0B
+  have hmc3 : (afterAuth c2 rc0).mem 0x88 = some ([m0, m1, 0xFF, m3, m4, m5] ++ mrest) := by
+    rw [afterAuth_mem c2 rc0 0x88 hH.liteS (by decide) (by decide)]; exact hmc2
+  have hul3 : (afterAuth c2 rc0).systemLocked = false :=
+    systemLocked_false _ m0 m1 m3 ([m4, m5] ++ mrest) (by simpa using hmc3)
+  have hp88 : (afterAuth c2 rc0).present 0x88 = true := by simp [Card.present, hmc3]
+  -- 5. write MC
+  have hmcl : ([m0, m1, 0xFF, m3, m4, m5] ++ mrest).length = 16 := by simp [hmrl]
+  generalize hmcv : [m0, m1, 0xFF, m3, m4, m5] ++ mrest = mc at *
+  have hle : ∀ v : Nat, (le16 v).length = 2 := fun v => rfl
+  obtain ⟨mcF, hmcF, hmcFl⟩ : ∃ mcF : Bytes, mcF = (((if pf < 14 then setSlice (setSlice (if rp = true ∧ pf < 14 then setSlice mc 6 (le16 (2 ^ 14 - 2 ^ pf)) else mc) 8 (le16 (2 ^ 14 - 2 ^ pf))) 10 (le16 (2 ^ 14 - 2 ^ pf))
+      else (if rp = true ∧ pf < 14 then setSlice mc 6 (le16 (2 ^ 14 - 2 ^ pf)) else mc)).set 2 0).set 5 1) ∧ mcF.length = 16 := by
+    refine ⟨_, rfl, ?_⟩
+    have h6 : (if rp = true ∧ pf < 14 then setSlice mc 6 (le16 (2 ^ 14 - 2 ^ pf)) else mc).length = 16 := by
+      split
+      · rw [setSlice_length _ _ _ (by rw [hle, hmcl]; omega)]; exact hmcl
+      · exact hmcl
+    rw [set_length', set_length']
+    split
+    · rw [setSlice_length _ _ _ (by rw [hle, setSlice_length _ _ _ (by rw [hle, h6]; omega), h6]; omega),
+        setSlice_length _ _ _ (by rw [hle, h6]; omega), h6]
+    · exact h6
+  obtain ⟨tr6, hw6⟩ := writePlain_card C (afterAuth c2 rc0) idm 0x88 mcF ⟨some ⟨sk, rc0.take 8⟩, true⟩ tr5 hH3.idm_eq h.idm_len hp88
+    (by decide) (by decide) hul3 hmcFl
+  have hH4 : Holds (afterPlain (afterAuth c2 rc0) 0x88 mcF) idm (keyOf p) :=
+    holds_afterPlain _ idm _ mcF 0x88 hH3 (by decide) (by decide) (by decide) (by decide) (by decide)
+  -- 6. the authenticate that follows
+  obtain ⟨⟨sk7, tr7, _, ha7⟩, _, _⟩ := authLiteS_card C hC forget (afterPlain (afterAuth c2 rc0) 0x88 mcF) idm p (keyOf p) rc1
+    ⟨some ⟨sk, rc0.take 8⟩, true⟩ tr6 hH4 (liteKey_keyOf p hp) hrc1 hrc1B
+  -- assemble
+  have hpw : pwCheck (some p) = .ok () := by
+    unfold pwCheck
+    have : ¬ (p ≠ [] ∧ p.length < 16) := by
+      rcases hp with hp | hp
+      · simp [hp]
+      · intro hc; omega
+    simp only [this, if_false]
+  have hidx2 : idx mc 2 = .ok 0xFF := by rw [← hmcv]; rfl
+  have hidx5 : idx mc 5 = .ok m5 := by rw [← hmcv]; rfl
+  have hprot : protectLiteS C forget (honest C) idm (some p) rp pf rc0 ⟨rd, c, tr⟩
+      = (.ok true, ⟨⟨some ⟨sk, rc0.take 8⟩, true⟩, afterPlain (afterAuth c2 rc0) 0x88 mcF, tr6⟩) := by
+    have hi0 : idx ([v0, v1] ++ vrest) 0 = .ok v0 := rfl
+    have hi1' : idx ([v0, v1] ++ vrest) 1 = .ok v1 := rfl
+    unfold protectLiteS
+    simp only [bind_apply, lift_apply, pure_apply, getRd_apply, hpw, hr1, hidx2, hidx5, ne_eq, not_true_eq_false, false_and,
+      if_false, hr2, hi0, hi1', hd86, hw3, hw4, ha5, Bool.not_true, Bool.false_eq_true, ← hmcF, hw6]
+  have hs1 : step C forget (honest C) idm true (.protect (some p) rp pf rc0) ⟨rd, c, tr⟩
+      = (.ok (.bool true), ⟨⟨some ⟨sk, rc0.take 8⟩, true⟩, afterPlain (afterAuth c2 rc0) 0x88 mcF, tr6⟩) := by
+    simp only [step, if_true]; rw [bind_of_ok hprot]; rfl
+  have hs2 : step C forget (honest C) idm true (.auth p rc1) ⟨⟨some ⟨sk, rc0.take 8⟩, true⟩, afterPlain (afterAuth c2 rc0) 0x88 mcF, tr6⟩
+      = (.ok (.bool true), ⟨⟨some ⟨sk7, rc1.take 8⟩, true⟩, afterAuth (afterPlain (afterAuth c2 rc0) 0x88 mcF) rc1, tr7⟩) := by
+    simp only [step, if_true]; rw [bind_of_ok ha7]; rfl
+  simp only [run_cons, run_nil, hs1, hs2]
+
 end NfcVerif.AuthCard
